@@ -20,8 +20,8 @@ Import ListNotations.
 
 Definition MH_BLOCK : nat := 1024.      (* ISAL_MH_SHA1_BLOCK_SIZE = 16 segments x 64 bytes *)
 
-(* memcpy (dst + off, src, |src|) on a buffer held as a list; clipped to the buffer
-   (the C would write past the array: only when `len + partial_block_len` wraps, see below) *)
+(* memcpy (dst + off, src, |src|) on a buffer held as a list; clipped to the buffer (every
+   memcpy of the model stays inside the 1024 bytes; the clip only keeps the function total) *)
 Definition mh_memcpy (dst : list N) (off : nat) (src : list N) : list N :=
   firstn (length dst) (firstn off dst ++ src ++ skipn (off + length src) dst).
 
@@ -46,7 +46,7 @@ Definition mhc_update (c : mh_ctx) (buf : list N) : mh_ctx :=
   else
     let plen := (mc_total c mod 1024)%N in                 (* total_length % BLOCK_SIZE *)
     let total' := w64 (mc_total c + len) in                (* ctx->total_length += len *)
-    if (w32 (len + plen) <? 1024)%N then                   (* uint32_t sum: wraps mod 2^32 *)
+    if (len + plen <? 1024)%N then                         (* (uint64_t) len + partial_block_len: no wrap *)
       (* not enough data for one block: append to the partial block *)
       {| mc_total := total';
          mc_partial := mh_memcpy (mc_partial c) (N.to_nat plen) buf;
